@@ -472,6 +472,36 @@ pub fn number_to_precision(
     ))))
 }
 
+/// Lay out significant digits and a decimal exponent as `d.ddde±x`
+fn format_exponent_notation(negative: bool, digits: &[u8], exponent: i32) -> String {
+    let mut result = String::new();
+    if negative {
+        result.push('-');
+    }
+    result.extend(digits.iter().take(1).map(|d| *d as char));
+    if digits.len() > 1 {
+        result.push('.');
+        result.extend(digits.iter().skip(1).map(|d| *d as char));
+    }
+    result.push('e');
+    result.push(if exponent < 0 { '-' } else { '+' });
+    result.push_str(&exponent.unsigned_abs().to_string());
+    result
+}
+
+/// The magnitude of a finite, non-zero number rounded half up to `precision` significant
+/// digits: the digits and the decimal exponent of the first one.
+fn round_to_precision(n: f64, precision: usize) -> (Vec<u8>, i32) {
+    let (exact, mut exponent) = exact_decimal_digits(n);
+    let mut digits = round_half_up(&exact, precision);
+    if digits.len() > precision {
+        // Carried into a new leading digit (9.99 -> 10.0): same digits count, next exponent
+        digits.pop();
+        exponent += 1;
+    }
+    (digits, exponent)
+}
+
 // Number.prototype.toExponential
 pub fn number_to_exponential(
     interp: &mut Interpreter,
@@ -486,16 +516,32 @@ pub fn number_to_exponential(
         ))));
     }
 
-    let digits = args.first().map(|v| v.to_number() as i32).unwrap_or(6);
+    let fraction_digits = match args.first() {
+        None | Some(JsValue::Undefined) => None,
+        Some(v) => {
+            let digits = v.to_number() as i32;
+            if !(0..=100).contains(&digits) {
+                return Err(JsError::range_error(
+                    "toExponential() argument must be between 0 and 100",
+                ));
+            }
+            Some(digits as usize)
+        }
+    };
 
-    if !(0..=100).contains(&digits) {
-        return Err(JsError::range_error(
-            "toExponential() argument must be between 0 and 100",
-        ));
-    }
-
-    let result = format!("{:.prec$e}", n, prec = digits as usize);
-    // Convert Rust's "e" notation to JS format (e.g., "1.23e2" -> "1.23e+2")
-    let result = result.replace("e", "e+").replace("e+-", "e-");
+    let (digits, exponent) = if n == 0.0 {
+        (vec![b'0'; fraction_digits.unwrap_or(0) + 1], 0)
+    } else if let Some(fraction_digits) = fraction_digits {
+        round_to_precision(n, fraction_digits + 1)
+    } else {
+        // As many digits as necessary: the shortest digits that round-trip
+        let sci = format!("{:e}", n.abs());
+        let (mantissa, exponent) = sci.split_once('e').unwrap_or((sci.as_str(), "0"));
+        (
+            mantissa.bytes().filter(u8::is_ascii_digit).collect(),
+            exponent.parse().unwrap_or(0),
+        )
+    };
+    let result = format_exponent_notation(n < 0.0, &digits, exponent);
     Ok(Guarded::unguarded(JsValue::String(JsString::from(result))))
 }
